@@ -4,23 +4,19 @@ from .. import model
 from . import lattice as L
 
 CLAIM = dict(
-   text="Coq theorems about the executable model of typeorder (Model/Ty.v): reflexivity, coincidence with subclassing and transitivity on classes, generic aliases below their origin and argument-wise, unions above / intersections below each member, Literal/Dependent below their bound -- all for unbounded nesting; mirror symmetry proved on the decidable domain msym (no hook-vs-hook comparison), refuted outside it by vm_compute witnesses (KF-06, KF-07) and for tuple[...] vs its bound (KF-24). The model is tied to /repo on every run by running implementation and extracted model on all ordered pairs of a generated type corpus; every asymmetric pair must fall in a known-finding class and behave as the model predicts.",
+   text="Coq theorems about the executable model of typeorder (Model/Ty.v): reflexivity, coincidence with subclassing and transitivity on classes, generic aliases below their origin and argument-wise, unions above / intersections below each member, Literal/Dependent below their bound -- all for unbounded nesting; mirror symmetry proved on the decidable domain msym (no hook-vs-hook comparison), refuted outside it by vm_compute witnesses (KF-06). KF-07 (two spellings of Exactly[A] unequal) and KF-24 (tuple[...] unrelated to tuple) were repaired in /repo with fix: commits and the theorems now cover them. The model is tied to /repo on every run by running implementation and extracted model on all ordered pairs of a generated type corpus; every asymmetric pair must fall in a known-finding class and behave as the model predicts.",
    note="Trusted: Coq kernel, extraction (ExtrOcamlBasic), OCaml driver, the hand-written model (validated by the correspondence), CPython's issubclass/hasattr (tables). No axioms (all theorems closed under the global context). Partial: full mirror symmetry is false of the code (known findings).",
    technique="Coq proof (induction on fuel over a nested inductive of types) + differential correspondence impl vs extracted model", design="6 C12")
 
 THEOREMS = ["C12_refl", "C12_mirror_partial", "C12_fuel_irrelevant", "C12_classes", "C12_classes_less",
             "C12_classes_mirror", "C12_classes_trans", "C12_generic_origin", "C12_generic_args",
-            "C12_union_member", "C12_inter_member", "C12_dep_bound_partial",
-            "C12_mirror_refuted_union", "C12_mirror_refuted_inter", "C12_mirror_refuted_exactly",
-            "C12_dep_bound_refuted_tuple"]
+            "C12_union_member", "C12_inter_member", "C12_dep_bound",
+            "C12_mirror_refuted_union", "C12_mirror_refuted_inter"]
 ASSUMPTIONS = ["the generated class hierarchies satisfy the hypotheses of the theorems (issubclass reflexive, transitive, antisymmetric): checked per world, others are compared against the model only",
                "Regexp[...] is kept out of the sweep against hierarchies with protocols (issubclass(Regexp[..], Protocol) raises inside typing)"]
 
 
 def classify_mirror(case, i, j):
-    a, b = case["types"][i], case["types"][j]
-    if a[0] == 4 and b[0] == 4 and a[2] == b[2]:
-        return "KF-07"
     return "KF-06"
 
 
@@ -83,9 +79,7 @@ def check_case(ctx, case, stats, samples):
             if rel == "imember" and a != -1 and objs[i] != objs[j]:
                 ctx.violation(f"intersection is not more specific than its member: {a}", L.pair_case(case, i, j))
             if rel == "bound" and c[0] not in (8, 9, 10, 11) and a != -1:
-                if e[0] == 11:
-                    ctx.known_hit("KF-24", L.pair_case(case, i, j))
-                else:
+                if True:
                     ctx.violation(f"value-dependent type is not more specific than its bound: {a}", L.pair_case(case, i, j))
     if len(samples) < 3:
         i, j = 0, min(1, n - 1)
@@ -142,4 +136,4 @@ def replay_finding(ctx, e):
     wit = e["witness"]
     w, objs, ords, subs = L.eval_impl(wit)
     exp = wit["expect_typeorder"]
-    return [ords[0][1], ords[1][0]] == exp
+    return [ords[0][1], ords[1][0]] == exp and (e["status"] == "open" or objs[0] != objs[1] or exp != [0, 0])
